@@ -60,7 +60,7 @@ def execute(ob):
     res = out[name][2]
     val = res.orders[(0, 0, 0, 0)][0]
     if (res.x, res.Q2) != (x, Q2):
-        line["outcome"] = "Crash_SlotHoldsAnotherPoint"
+        line["outcome"] = "SlotHoldsAnotherPoint"
         return line
     # off the nodes: operator[p][j] = x * weight_p * p_j(x) with eko's basis functions and the EXPECTED weight
     from eko.interpolation import InterpolatorDispatcher, XGrid
